@@ -41,13 +41,17 @@ def main():
             env = dict(os.environ, PYTHONPATH=WT)
             demo_mut = sh("/venv/bin/python %s" % os.path.join(d, "demo.py"), env=env, timeout=600)
             demo_clean = sh("/venv/bin/python %s" % os.path.join(d, "demo.py"), env=dict(os.environ, PYTHONPATH="/repo"), timeout=600)
+            tests = None
+            if os.environ.get("SEED_RUN_TESTS"):
+                tr = sh("cd %s && /venv/bin/python -m pytest -q -p no:cacheprovider -n 16 -x 2>&1 | tail -1" % WT, timeout=1800)
+                tests = tr.stdout.strip()
             t0 = time.time()
             chk = sh("COXETER_REPO=%s ./check %s --tier quick" % (WT, pid), cwd=VERIF, timeout=3600)
             viol = [l for l in chk.stdout.splitlines() if l.startswith("VIOLATION")]
             res = {"id": sid, "property": pid, "demo_with_change_rc": demo_mut.returncode,
                    "demo_without_change_rc": demo_clean.returncode, "check_rc": chk.returncode,
                    "violation_lines": viol, "check_tail": chk.stdout.splitlines()[-1:] , "wall_s": round(time.time() - t0, 1),
-                   "caught": chk.returncode == 1 and bool(viol)}
+                   "caught": chk.returncode == 1 and bool(viol), "tests_with_change": tests}
             json.dump(res, open(os.path.join(d, "result.json"), "w"), indent=1)
             summary.append((sid, pid, "CAUGHT" if res["caught"] else "MISSED(rc=%d)" % chk.returncode,
                             "demo %d/%d" % (demo_mut.returncode, demo_clean.returncode), viol[:1]))
